@@ -4,6 +4,7 @@ import XmlRsModel.Names
 import XmlRsModel.CharData
 import Driver.Dump
 import Driver.XPathOps
+import Driver.DomOps
 /-! Operations of the model driver. -/
 namespace Driver
 open XmlRs
@@ -137,6 +138,7 @@ def dispatch (op : String) (args : List Str) : String :=
   | "pipeline", [s] => opAccept "cur" s
   | "roundtrip", [s] => opRoundtrip s
   | "chardata", k :: c :: ops => chardata (String.ofList k) c ops
+  | "dom", t :: _ :: ops => opDom t ops
   | "query", t :: b :: es => opQuery "rz" t b es
   | "qfresh", t :: b :: es => opQuery "rz" t b es
   | "queryq", q :: t :: b :: es => opQuery (String.ofList q) t b es
